@@ -36,7 +36,8 @@ KEY_READ = "create_data_movement_deep_copy_refs/copyout-array-read-before-writte
 HEADER = """From Coq Require Import List ZArith Bool String. Import ListNotations.
 From PV Require Import Fort.Syntax Fort.Sem C11.Access C12.InOut C13.AccData.
 Open Scope Z_scope.
-Definition x_accept (x : xstmt) : bool := match x with XCore s => s_accept s | _ => true end.
+Definition x_accept (x : xstmt) : bool :=
+  match x with XCore s => s_accept s | XWhile _ body => forallb s_accept body | _ => true end.
 (* case: region (with calls), declared arrays, implementation accepted?, copyin, copyout, copy, culprit arrays
    result: (verdict agrees, clauses agree (true when refused), copyout arrays never read, reason codes) *)
 Definition c13_case := (list xstmt * list name * bool * list name * list name * list name * list name)%type.
@@ -320,6 +321,9 @@ def run(ctx):
         elif c < 0.6:
             k = rng.randint(0, len(prog))
             prog[k:k] = g.wop_then_overwrite()
+        if rng.random() < 0.55:
+            k = rng.randint(0, len(prog))
+            prog[k:k] = g.compound()
         stores = [g.store() for _ in range(nstores)]
         for vals, _ in stores:           # loop variables matter when a loop body is run as a region
             for v in fortgen.LOOPVARS:
